@@ -34,8 +34,8 @@ PROPS = {
                 "rescaled / sign-flipped / both; shared commitment pointers; labels '', short, 900..2048 bytes; processes "
                 "pinned to 1..16 CPUs by taskset (runtime.NumCPU follows) and GOMAXPROCS set below / above the CPU count. Non-trivial = at least two distinct "
                 "evaluation indices; distinct by the full case.",
-        "oracle": "round trip: CheckMultiProof(fresh transcript, same label) == (true, nil); equal next challenge of both "
-                  "transcripts; commitments still the same group element (reference equality on raw coordinates)",
+        "oracle": "round trip: CheckMultiProof(fresh transcript, same label, freshly rebuilt copies of the original commitments in the "
+                  "generated representation / sharing pattern) == (true, nil); equal next challenge of both transcripts",
         "assumptions": COMMON_ASSUMPTIONS + ["NumCPU > 16 cannot be produced in this sandbox"],
     },
     "C03": {
@@ -276,10 +276,10 @@ PROPS = {
                 "repeats}; for the error path one un-normalisable element (zero value or Z=0) at a drawn position, and "
                 "deterministically at EVERY position of lists of length 1,2,3,4,5,8,17. Non-trivial = list with a repeated "
                 "pointer and a non-normalised element; distinct by the case.",
-        "oracle": "ElementsToBytes[i] == e_i.Bytes() == reference compression; BatchToBytesUncompressed[i] == "
-                  "e_i.BytesUncompressedTrusted() == reference x||y; BatchMapToScalarField[i] == single == reference; inputs "
-                  "untouched; BatchNormalize: Z == 1 (hook) and identical affine point afterwards; on the error path an error and "
-                  "every element bit-for-bit unchanged; trusted uncompressed decode returns the same representative",
+        "oracle": "ElementsToBytes[i] == e_i.Bytes(); BatchToBytesUncompressed[i] == e_i.BytesUncompressedTrusted(); "
+                  "BatchMapToScalarField[i] == single; the serialisers leave every element the same group element; BatchNormalize: "
+                  "Z == 1 (hook) and reference-Equal to before; on the error path an error and every element bit-for-bit unchanged; "
+                  "trusted uncompressed decode is reference-Equal to the original (demands exactly what C19 states)",
         "assumptions": COMMON_ASSUMPTIONS,
     },
     "C10": {
